@@ -10,53 +10,62 @@ TEXT = {
     "C01": ("Theorems (Lean 4, all histories, all key types with a strict linear order, both index widths, every capacity): the tree "
             "state machine refines a capacity-bounded ordered map (Stevia.C01.refines*). Tie to the code: every transition of the real "
             "AVLTreeMut/U8AVLTreeMut in the explored scopes is decoded by the model's decoder, stepped by the model and compared (results, "
-            "contents, every byte); exhaustive over reachable byte states in small scopes, seeded random beyond.", "§5 C01"),
+            "contents, every byte); exhaustive over reachable byte states in small scopes, seeded random beyond. Second tie (translator): avl_tree.rs / u8_avl_tree.rs are re-translated into Lean on every run and proved equal to the model: from the layout of any reachable state the translated from_bytes_mut + insert/remove yield the layout of a reachable state with the model's answer (Stevia.C01.translated_*).", "§5 C01"),
     "C02": ("Theorems: for an arbitrary hash function the hash-set state machine refines a capacity-bounded set and iteration equals the "
             "members without duplicates (Stevia.C02.*). Tie: byte-exact correspondence with HashSetMut/HashSet incl. real SipHash placement, "
-            "weak-hash value type for long chains.", "§5 C02"),
+            "weak-hash value type for long chains. Second tie (translator): hash_set.rs is re-translated into Lean on every run; the translated insert/remove/contains equal the model on the layout of every well-formed set and repeated calls of the translated iterator's next yield exactly the model's iteration (Stevia.C02.translated_*).", "§5 C02"),
     "C03": ("Theorems: the array-set model (literal binary-search loop, element shifting) refines a bounded sorted set; the view is strictly "
             "ascending in every reachable state (Stevia.C03.*). Tie: byte-exact correspondence for all four prefix widths, several element "
-            "types incl. one ordered by part of the value.", "§5 C03"),
+            "types incl. one ordered by part of the value. Second tie (translator): array_set.rs (binary-search loop, checked accesses, both ptr::copy shifts) is re-translated on every run and proved equal to the model, unconditionally (Stevia.C03.translated_*).", "§5 C03"),
     "C04": ("Theorems: the independent decoder applied to the layout of any reachable state returns that state, hence any operation after a "
             "round trip through the bytes equals the uninterrupted one; re-opening with matching size is the identity (Stevia.C04.*). Tie: "
             "every explored transition is executed through a fresh handle on a relocated copy at two different addresses.", "§5 C04"),
     "C05": ("Theorems: the footprint of every raw copy of array_set.rs, as extracted from the source on this run, stays inside the value "
             "slots under the guards the code establishes (Stevia.C05.*), and the model's copyWithin never reports out-of-bounds on reachable "
             "states. Tie: extractor regenerates the copy expressions from /repo; guard regions with two patterns around every buffer in every "
-            "explored transition; Miri in the thorough tier.", "§5 C05"),
+            "explored transition; Miri in the thorough tier. Second tie (translator): in the translated insert/take of array_set.rs no raw copy and no index leaves the values slice on any well-formed set (Stevia.C05.translated_copies_stay_inside).", "§5 C05"),
     "C06": ("Theorems: every reachable tree state is height-balanced with exact height registers; minNodes(height) <= entries with minNodes "
             "attained; searches follow one root-to-leaf path; array-set lookups probe at most floor(log2 n)+1 elements (Stevia.C06.*). Tie: "
-            "balance/heights decoded from the real bytes after every transition, comparison logs of an instrumented key type equal the model's path.", "§5 C06"),
+            "balance/heights decoded from the real bytes after every transition, comparison logs of an instrumented key type equal the model's path. Second tie (translator): the translated balance_factor / rotations / update_child / rebalance loop of both tree files equal the literal model's (Stevia.C06.translated_rebalance_u32/u8).", "§5 C06"),
     "C07": ("Theorems: from every reachable state exactly cap-n further fresh entries fit, then insert is refused; allocated slots are fresh; "
-            "released slots are reused first; is_full iff n = cap (Stevia.C07.*), trees and hash set. Tie: fill-up probe from every explored state.", "§5 C07"),
+            "released slots are reused first; is_full iff n = cap (Stevia.C07.*), trees and hash set. Tie: fill-up probe from every explored state. Second tie (translator): the translated add / remove_node of both tree files equal the literal model's allocator (Stevia.C07.translated_allocator_*).", "§5 C07"),
     "C08": ("Theorems: extending by n records and re-opening preserves the tree, sets capacity to records+n, stays reachable (so repeated growth "
             "and every continuation are covered), exactly n more entries fit; read-only view keeps old capacity; array-set growth "
-            "(Stevia.C08.*). Tie: growth is an ordinary operation at every explored state.", "§5 C08"),
+            "(Stevia.C08.*). Tie: growth is an ordinary operation at every explored state. Second tie (translator): the translated from_bytes_mut of both tree files is the model's openMut on layouts (Stevia.C08.translated_open_*).", "§5 C08"),
     "C09": ("Theorems: every refused operation of the three models returns the identical state; queries return no new state (Stevia.C09.*). "
             "Tie: byte snapshot around every refused call and query on the implementation, plus model/implementation byte equality.", "§5 C09"),
     "C10": ("Theorems: decoder∘layout = id on reachable states, decoder accepts only layouts, slot trichotomy, data_len formula, returned index "
             "holds the entry, live entries keep their slot, hash placement (Stevia.C10.*). Tie: exact byte equality between the model's layout "
-            "and the real buffer after every transition, for key/value types with and without padding.", "§5 C10"),
+            "and the real buffer after every transition, for key/value types with and without padding. Second tie (translator): what the translated insert/remove of both tree files write, from the layout of a reachable state, is exactly the layout of a reachable state (Stevia.C10.translated_source_keeps_format_*).", "§5 C10"),
     "C11": ("Theorems: in every state reachable through the safe API of the prefixed strings the payload is valid UTF-8 (core Lean's "
             "ByteArray.IsValidUTF8); the loading constructors accept exactly valid payloads; PodStr::as_str returns Ok only for valid text "
             "(Stevia.C11.*). Tie: every &str obtained by the harness is re-validated; Ok/Err compared with the model on exhaustive small "
-            "byte strings and structured 4-byte cases.", "§5 C11"),
+            "byte strings and structured 4-byte cases. Second tie (translator): prefix_str.rs / pod_str.rs are re-translated on every run; from_bytes, new, copy_from_str, as_str equal the model and whatever the translated new hands out as Ok is valid UTF-8 (Stevia.C11.translated_*).", "§5 C11"),
     "C12": ("Theorems: no operation of any model faults in any reachable state of an accepted configuration (every checked-arithmetic, "
             "modulo, panic and index site is an explicit fault in the model); all-zero buffers read as empty (Stevia.C12.*). Tie: edge "
-            "configurations (capacity 0,1,2,255; MIN/MAX keys) explored with overflow checks on; any panic is a violation.", "§5 C12"),
+            "configurations (capacity 0,1,2,255; MIN/MAX keys) explored with overflow checks on; any panic is a violation. Second tie (translator): every translated array-set operation returns normally (no failed bounds check, no out-of-range copy) in every reachable state (Stevia.C12.translated_array_set_total).", "§5 C12"),
     "C13": ("Theorems: new/copy_from_str/reload/size specifications of the prefixed strings incl. clamping at the prefix maximum and maximality "
-            "of the copied prefix (Stevia.C13.*). Tie: exhaustive small strings and boundary buffer sizes through the model.", "§5 C13"),
-    "C14": ("Theorems: PodStr from/copy/as_str/Display/load specifications (Stevia.C14.*). Tie: exhaustive small strings and byte patterns.", "§5 C14"),
+            "of the copied prefix (Stevia.C13.*). Tie: exhaustive small strings and boundary buffer sizes through the model. Second tie (translator): the translated new / copy_from_str / size of prefix_str.rs equal the model (Stevia.C13.translated_prefix_str_is_the_model).", "§5 C13"),
+    "C14": ("Theorems: PodStr from/copy/as_str/Display/load specifications (Stevia.C14.*). Tie: exhaustive small strings and byte patterns. Second tie (translator): the translated From<&str> / copy_from_slice / copy_from_str / as_str of pod_str.rs equal the model (Stevia.C14.translated_pod_str_is_the_model).", "§5 C14"),
     "C15": ("Theorems: PodBool decode/encode over all 256 bytes (decide over the complete table), PodOption value/value_mut, load/load_mut as "
-            "pure views (Stevia.C15.*). Tie: all byte values and lengths around size_of through the model.", "§5 C15"),
+            "pure views (Stevia.C15.*). Tie: all byte values and lengths around size_of through the model. Second tie (translator): the translated PodBool conversions, PodOption::value/value_mut and ZeroCopy::load/load_mut equal the model (Stevia.C15.translated_pod_is_the_model).", "§5 C15"),
 }
 
 NOTE = ("Trusted: Lean 4.33 kernel; axioms propext, Classical.choice, Quot.sound only (audited with #print axioms on every run; no sorry, "
-        "native_decide, bv_decide). The model (lean/Stevia/Model) is hand-written; it is tied to /repo's working tree on every run by the "
-        "correspondence check (harness built against /repo, every explored transition replayed through the model's decoder and step "
-        "function) — exhaustive only within the scopes recorded in the evidence. Harness, driver, byte codecs and scope selection are trusted.")
+        "native_decide, bv_decide). The model (lean/Stevia/Model) is hand-written; it is tied to /repo's working tree on every run (a) by the "
+        "translator tools/rust2lean.py (trusted: its mapping of Rust constructs and primitive accesses to Lean; its output is proved equal "
+        "to the model, for all inputs) and (b) by the correspondence check (harness built against /repo, every explored transition replayed "
+        "through the model's decoder and step function) — exhaustive only within the scopes recorded in the evidence. Harness, driver, "
+        "byte codecs and scope selection are trusted.")
 
 NOT_YET = {}
+
+TECH_DEFAULT = ("machine-checked proof in Lean 4 (model + theorems); the model is tied to the code (a) by a Rust->Lean translator run on "
+                "every check whose output is proved equal to the model and (b) by a byte-exact differential correspondence check")
+TECH = {
+    "C04": "machine-checked proof in Lean 4 (model + theorems: decoder o layout = id on reachable states) tied to the code by a byte-exact differential correspondence check (every transition re-executed through fresh handles on relocated copies)",
+    "C09": "machine-checked proof in Lean 4 (model + theorems: refused operations return the identical state) tied to the code by a byte-exact differential correspondence check with byte snapshots around every refused call",
+}
 
 
 def main():
@@ -73,7 +82,7 @@ def main():
             "engine": "lean4-model+correspondence",
             "level_claimed": {"category": "proof", "text": text, "design_ref": ref},
             "level_note": NOTE,
-            "technique": "machine-checked proof in Lean 4 (model + theorems) tied to the code by a byte-exact differential correspondence check",
+            "technique": TECH.get(pid, TECH_DEFAULT),
         })
     na = []
     for pid in sorted(TEXT):
@@ -93,7 +102,7 @@ def main():
             "name": "lean4-model+correspondence",
             "path": "/verif/check",
             "serves_properties": claimed,
-            "kind_free_text": "Lean 4 model and theorems (lean/), Rust harness built against /repo (harness/), line-protocol driver (lean/Driver.lean), orchestrated by ./check",
+            "kind_free_text": "Lean 4 model and theorems (lean/), Rust->Lean translator (tools/rust2lean.py) and source-facts extractor run on every check, Rust harness built against /repo (harness/), line-protocol driver (lean/Driver.lean), orchestrated by ./check",
         }],
         "checks": checks,
         "not_applicable": na,
